@@ -106,7 +106,8 @@ SYMS = {
                                                                'b': {'aggregate': 'last'}, 'arr': {'aggregate': 'array'},
                                                                'obj': {'aggregate': 'any'}, 'd': {'aggregate': 'sum'},
                                                                'mixes': {'name': 'mix', 'aggregate': 'set'}}, source_delete=False),
-    'join_full_diffkey': S('join', 'res_1', ['m'], 'res_2', ['k'], {'s_last': {'name': 's', 'aggregate': 'last'}}, mode='full-outer'),
+    # key fields named differently on the two sides, and the source's key name (s) is not a field of the target
+    'join_full_diffkey': S('join', 'res_1', ['s'], 'res_2', ['s2'], {'b_last': {'name': 'b', 'aggregate': 'last'}}, mode='full-outer'),
     'acf_chain': S('add_computed_field', [{'target': 'c1', 'operation': 'sum', 'source': ['m', 'm']},
                                           {'target': 'c2', 'operation': 'multiply', 'source': ['c1', 'm']},
                                           {'target': 'c3', 'operation': 'format', 'with': '{c1}/{c2}'}], resources='res_1'),
